@@ -18,7 +18,7 @@
 From Coq Require Import List ZArith Permutation Sorted.
 From TskVerif Require Import Base.Common C07.Model C07.ListLemmas C07.CmpLemmas C07.SortProofs
      C07.RaggedProofs C07.TopProofs C07.IdemProofs C07.PartialProofs C07.MutParentsProofs C07.SweepProofs
-     C07.IndexProofs C07.Refuted C07.Examples.
+     C07.IndexProofs C07.DedupProofs C07.PipelineProofs C07.Refuted C07.Examples.
 Import ListNotations.
 Open Scope Z_scope.
 
@@ -140,6 +140,58 @@ Theorem build_index_lists_every_edge_sorted : forall Q, qsorts_ok Q -> forall t 
     Sorted (fun a b => e_left a <= e_left b) insE /\ Sorted (fun a b => e_right a <= e_right b) outsE /\
     (forall e, In e (t_edges t) <-> In e insE) /\ (forall e, In e (t_edges t) <-> In e outsE).
 Proof. exact build_index_spec. Qed.
+
+(* deduplicate_sites (tables.c 12278) on a referentially intact table with non-negative site
+   positions, whenever it succeeds (i.e. the sites are sorted): only sites and mutations.site
+   change; the new site table is the first row of every run of equal positions, hence strictly
+   increasing; every mutation keeps all other columns and now points at a kept row with the
+   position of its old site *)
+Theorem deduplicate_sites_keeps_first : forall t t',
+  (forall s, In s (t_sites t) -> 0 <= s_pos s) -> check_refs t = true ->
+  deduplicate_sites t = Ok t' ->
+  t' = set_sites_muts t (t_sites t') (t_muts t') /\
+  t_sites t' = first_of_runs (-1) (t_sites t) /\
+  StronglySorted (fun a b => s_pos a < s_pos b) (t_sites t') /\
+  Forall2 (fun m m' => m' = mut_set_site m (m_site m') /\
+             exists s s', get (t_sites t) (m_site m) = Ok s /\ get (t_sites t') (m_site m') = Ok s' /\
+                          s_pos s' = s_pos s) (t_muts t) (t_muts t').
+Proof. exact deduplicate_sites_spec. Qed.
+
+(* the repair pipeline, as far as it is proved: for a referentially intact, logically
+   consistent collection ([consistent_input]: edges inside [0,L) with the parent strictly older,
+   no two overlapping edges of one child, sites inside [0,L), mutation nodes in range) in ANY row
+   order, sort() followed by a successful build_index() gives a table meeting
+   [valid_for_parents]; so a successful compute_mutation_parents() then writes the nearest
+   mutation above for every mutation.  NOT proved (oracle of family [repair] only): that
+   the full tree check succeeds on the sorted table, deduplicate_sites in the chain,
+   and that the loaded tree sequence has the original trees and genotypes.  The pipeline does
+   fail when a child mutation row precedes its parent (repair_mutation_order_refuted). *)
+Theorem sort_then_index_is_valid : forall Q t mds gds t1 t2,
+  qsorts_ok Q -> check_refs t = true -> edges_wf t mds -> migs_wf t gds -> consistent_input t ->
+  table_sort Q None t = Ok t1 -> build_index Q t1 = Ok t2 ->
+  exists insE outsE, valid_for_parents t2 insE outsE.
+Proof. exact sort_index_valid. Qed.
+
+(* ... and build_index never fails on the output of sort() when no two edges share the key
+   (time[parent], parent, child, left): the sorted table passes TSK_CHECK_EDGE_ORDERING
+   (tables.c 10537-10571: parent times non-decreasing, parents contiguous, (child, left) strictly
+   increasing within a parent) *)
+Theorem sort_output_is_indexable : forall Q t mds gds t1,
+  qsorts_ok Q -> check_refs t = true -> edges_wf t mds -> migs_wf t gds ->
+  NoDup (map (edge_key (map n_time (t_nodes t))) (t_edges t)) ->
+  table_sort Q None t = Ok t1 -> exists t2, build_index Q t1 = Ok t2.
+Proof. exact sort_then_build_index_ok. Qed.
+
+Theorem repair_parents_nearest_partial : forall Q t mds gds t1 t2 t3,
+  qsorts_ok Q -> check_refs t = true -> edges_wf t mds -> migs_wf t gds -> consistent_input t ->
+  table_sort Q None t = Ok t1 -> build_index Q t1 = Ok t2 -> compute_mutation_parents t2 = Ok t3 ->
+  forall s site k, nth_error (t_sites t2) s = Some site ->
+    (k < length (site_block (t_muts t2) (Z.of_nat s)))%nat ->
+    let first := site_first (t_muts t2) (Z.of_nat s) in
+    exists m', nth_error (t_muts t3) (Z.to_nat first + k) = Some m' /\
+      nearest_above (parent_at (t_edges t2) (s_pos site))
+                    (map m_node (site_block (t_muts t2) (Z.of_nat s))) first k (m_parent m').
+Proof. exact sort_index_parents_nearest. Qed.
 
 (* the same for ONE tree given as a parent array (any forest), without the edge sweep *)
 Theorem mutation_parents_one_tree :
